@@ -168,6 +168,20 @@ def gap_edits(toks, full=True):
     return out
 
 
+_sep_memo = {}
+
+
+def _separable(a, b):
+    k = (a, b)
+    if k not in _sep_memo:
+        try:
+            ta, tb, tab = reflex.tokens(a), reflex.tokens(b), reflex.tokens(a + b)
+            _sep_memo[k] = len(ta) == 1 and len(tb) == 1 and [t[:2] for t in tab] == [ta[0][:2], tb[0][:2]]
+        except reflex.LexError:
+            _sep_memo[k] = False
+    return _sep_memo[k]
+
+
 def check(res, text, expected, family, toks, at, base_text):
     R = e1.get_real()
     r = R.parse(text)
@@ -238,6 +252,15 @@ def explore_sentence(res, tree, idx, pairs, partner_toks, full=True):
     g_edits = gap_edits(base, full)
     for fam, i, s in g_edits:
         check(res, assemble(base, {i: s}), expected, f'{fam}:{s!r}', base, i, base_text)
+    # --- tight: blanks that separate nothing may also be ABSENT (a gap is removable when the reference lexer splits the
+    #     concatenation of its two neighbours into exactly those two tokens)
+    tight = {}
+    for i in range(1, len(base)):
+        if _separable(base[i - 1], base[i]):
+            tight[i] = ''
+            check(res, assemble(base, {i: ''}), expected, "tight:''", base, i, base_text)
+    if len(tight) > 1:
+        check(res, assemble(base, tight), expected, "tight:all", base, min(tight), base_text)
     for s in (LEAD if full else LEAD[:2]):
         check(res, assemble(base, {}, lead=s), expected, f'sep-lead:{s!r}', base, 0, base_text)
     for s in (TRAIL if full else TRAIL[:2]):
